@@ -401,4 +401,28 @@ def judgeCase (lang : Lang) (text : Array Nat) (root : Tree) (api : Array ApiNod
   let f := cmpApi js.vnodes api f
   { corr := cs.fails, inv := shapeOK none root, judge := f, js := js, corrStats := cs }
 
+/-! ## Widths of the cached fields (tie of the ℕ-valued model to the C struct)
+
+The model computes every cached summary in `Nat` under the stated assumption "documents < 4 GiB": a quantity that
+grows with the document (child, named-child and descendant counts, error cost, byte/row/column extents, lookahead)
+never exceeds what 32 bits hold there, so the C field must hold EVERY 32-bit value for the model's sums to be the
+code's sums (`counts_fit_32` in Props.lean bounds the three counts by the number of nodes).  Grammar-bounded fields
+(symbol, production id, parse state, repeat depth) are 16-bit ABI types.  The unity build measures the real
+struct (`tsv-cunit_c02 widths`: an all-ones heap record read back through the runtime's accessors). -/
+def assumedBits : List (String × Nat) :=
+  [("child_count", 32), ("visible_child_count", 32), ("named_child_count", 32), ("visible_descendant_count", 32),
+   ("error_cost", 32), ("lookahead_bytes", 32), ("padding_bytes", 32), ("padding_row", 32), ("padding_column", 32),
+   ("size_bytes", 32), ("size_row", 32), ("size_column", 32),
+   ("repeat_depth", 16), ("production_id", 16), ("symbol", 16), ("parse_state", 16)]
+
+/-- Number of bits of an all-ones value `2^w − 1`. -/
+def bitsOfMax (maxValue : Nat) : Nat := Nat.log2 (maxValue + 1)
+
+/-- The fields whose measured width is below the assumed one (or that were not measured). -/
+def widthFails (measured : List (String × Nat)) : List String :=
+  assumedBits.filterMap fun (name, w) =>
+    match measured.lookup name with
+    | some v => if bitsOfMax v ≥ w then none else some s!"{name}: holds {bitsOfMax v} bits (max {v}), the model assumes >= {w}"
+    | none => some s!"{name}: not measured"
+
 end TsVerif.C02
